@@ -1252,7 +1252,11 @@ def run_c07(ctx) -> Corr:
     corr = Corr("C07", "sequential interleavings of send calls and received wake / non-wake messages over 3 nodes x 2 children "
                 "x 2 value types (overwrites before a wake, sends between wakes, re-parking after a flush, re-presentations), "
                 "5 versions incl. 1.x with sleeping flags restored from persistence; compared on the writes view with the Lean "
-                "model; oracle = bookkeeping of the latest parked value per key from the trace. In addition WHAT a held command "
+                "model; oracle = bookkeeping of the latest parked value per key from the trace, and of the destinations known to be "
+                "sleeping from the HISTORY (restored flag, the node's wake signals, until it presents itself again) - never from "
+                "the library's own flag; every internal type of every version (and two unknown ones) from the sleeping node "
+                "between parking and wake, followed by sends for the same key, another key, another sleeping node, an awake "
+                "node, x 5 versions x node known from its restored record / from its own wake signal. In addition WHAT a held command "
                 "carries: every payload kind of held_payload_kinds (outer whitespace of each of Python's 29 whitespace code "
                 "points, delimiters, empty, numeric-looking text, non-ASCII, control characters, very long) x 4 versions with "
                 "hold / second node / second key / unbuffered send / wake / overwrite in both orders by a value differing in "
